@@ -59,6 +59,7 @@ type Contract struct {
 	Used     bool
 	Notes    []string
 	Ghosts   []*SpecFunc // per-application uninterpreted witness functions
+	Callbacks map[string]*Contract // contracts of function-typed parameters (calls through them use these)
 }
 
 // SpecFunc is a pure specification function, expanded as a macro (with body)
@@ -147,7 +148,7 @@ func fullKey(pkgPath, key string) string {
 }
 
 var clauseKinds = map[string]bool{"requires": true, "ensures": true, "exsures": true, "assigns": true,
-	"property": true, "loop": true, "trusted": true, "inline": true, "pure": true, "maypanic": true, "ghost": true, "panics": true, "throws": true, "recovers": true, "mode": true, "note": true, "lemma": true}
+	"property": true, "loop": true, "trusted": true, "inline": true, "pure": true, "maypanic": true, "ghost": true, "callback": true, "panics": true, "throws": true, "recovers": true, "mode": true, "note": true, "lemma": true}
 
 // ParseContractFile reads //@ lines from a Go file (package contracts) or a .spec file (trusted, external).
 func (cs *ContractSet) ParseContractFile(path, pkgPath string, trusted bool) error {
@@ -343,6 +344,40 @@ func (cs *ContractSet) ParseContractFile(path, pkgPath string, trusted bool) err
 				cur.Mode = rest
 			case "note":
 				cur.Notes = append(cur.Notes, rest)
+			case "callback":
+				// callback <param> requires|ensures|assigns|pure <text>
+				if len(fields) < 3 {
+					return fmt.Errorf("%s: malformed callback clause", where)
+				}
+				if cur.Callbacks == nil {
+					cur.Callbacks = map[string]*Contract{}
+				}
+				cb := cur.Callbacks[fields[1]]
+				if cb == nil {
+					cb = &Contract{Key: cur.Key + "$param:" + fields[1], ShortKey: fields[1], PkgPath: cur.PkgPath, Loops: map[int]*LoopSpec{}, Where: where, Trusted: false}
+					cur.Callbacks[fields[1]] = cb
+				}
+				kind := fields[2]
+				txt := strings.TrimSpace(strings.SplitN(rest, kind, 2)[1])
+				cl := &Clause{Kind: kind, Where: where}
+				cl.Label, cl.Text = splitLabel(txt)
+				switch kind {
+				case "requires":
+					cl.Ord = len(cb.Requires)
+					cb.Requires = append(cb.Requires, cl)
+					lastClause = cl
+				case "ensures":
+					cl.Ord = len(cb.Ensures)
+					cb.Ensures = append(cb.Ensures, cl)
+					lastClause = cl
+				case "assigns":
+					cb.Assigns = append(cb.Assigns, cl)
+					lastClause = cl
+				case "pure":
+					cb.Pure = true
+				default:
+					return fmt.Errorf("%s: unknown callback clause %q", where, kind)
+				}
 			case "ghost":
 				sf, _, err := parseSpecHeader(rest)
 				if err != nil {
